@@ -645,9 +645,21 @@ def check_C04(tier):
         rows = r.rows()
         err, acc_code = r.codes()      # the property does not fix the numeric codes: use the implementation's own
         for (q, a), cs in cell_candidates(r).items():
-            if len(cs) != 2:
+            if len(cs) < 2:
                 continue
-            want = spec_winner(cs[0], cs[1])
+            if len(cs) == 2:
+                want = spec_winner(cs[0], cs[1])
+            else:
+                # more than two candidates: the property only speaks about pairs, so a verdict is demanded only
+                # when the pairs agree — one candidate beats every other one, or every pair says "syntax error"
+                cpairs = [(x, y, spec_winner(x, y)) for i, x in enumerate(cs) for y in cs[i + 1:]]
+                want = None
+                if all(w is not None for _, _, w in cpairs):
+                    champs = [x for x in cs if all((w is x) for (p1, p2, w) in cpairs if p1 is x or p2 is x)]
+                    if len(champs) == 1:
+                        want = champs[0]
+                    elif all(w == "error" for _, _, w in cpairs):
+                        want = "error"
             if want is None:
                 continue
             cells += 1
@@ -866,7 +878,14 @@ def check_C06(tier):
             toks = [ids[ord(ch) - 97] if ord(ch) - 97 < len(ids) else 0 for ch in w]
             for vn in vnames:
                 r = xrun.impl_run(res, c, vn, w)
-                if r is None or r["verdict"] == "accept":
+                if r is None:
+                    continue
+                if r["verdict"] == "accept":
+                    # "never by returning a result as if the input had been accepted": a result for an input
+                    # the grammar does not derive (e.g. an unknown token code taken for the end marker)
+                    if not core.g.recognizes(toks):
+                        violations.append(xviol(pid, res, c, vn, "a result is returned for an input the grammar does not derive (no syntax error reported)",
+                                                {"input": w, "token_symbol_ids": toks, "value": r.get("val")}))
                     continue
                 xrej += 1
                 if r["verdict"] not in ("reject", "loop"):
@@ -909,6 +928,12 @@ HAND_SPECS = [
     {"tokens": ["N"], "lits": ["'×'", "'+'"], "prec": [("left", ["'+'"]), ("left", ["'×'"])], "nts": ["E"], "start": "E",
      "rules": [{"lhs": "E", "rhs": ["E", "'+'", "E"], "prec": None}, {"lhs": "E", "rhs": ["E", "'×'", "E"], "prec": None},
                {"lhs": "E", "rhs": ["N"], "prec": None}]},
+    # grammars so small that the generator may decline to pack the table
+    {"tokens": ["A"], "lits": [], "prec": [], "nts": ["S"], "start": "S", "rules": [{"lhs": "S", "rhs": [], "prec": None}]},
+    {"tokens": ["A"], "lits": [], "prec": [], "nts": ["S"], "start": "S",
+     "rules": [{"lhs": "S", "rhs": ["A", "S"], "prec": None}, {"lhs": "S", "rhs": [], "prec": None}]},
+    {"tokens": ["A"], "lits": [], "prec": [], "nts": ["S", "T"], "start": "S",
+     "rules": [{"lhs": "S", "rhs": ["T"], "prec": None}, {"lhs": "T", "rhs": [], "prec": None}]},
     {"tokens": ["A", "B", "C", "D", "E"], "lits": [], "prec": [], "nts": ["S", "X", "Y"], "start": "S",
      "rules": [{"lhs": "S", "rhs": ["A", "Y", "E"], "prec": None}, {"lhs": "S", "rhs": ["A", "X", "D"], "prec": None},
                {"lhs": "S", "rhs": ["B", "Y", "D"], "prec": None}, {"lhs": "X", "rhs": ["C"], "prec": None},
@@ -1457,12 +1482,18 @@ def c16_render(sp, target, pkg, rng_actions):
         acts.append(a)
     if rng_actions.random() < 0.15:
         acts = [None] * len(acts)         # a pure recogniser: no rule has an action
+    if rng_actions.random() < 0.25:
+        # the whole union on one line, ending in a line comment right before the closing brace
+        sp = dict(sp, union_inline=True)
+        inline = True
+    else:
+        inline = False
     if target == "go":
-        union = " val int\n str string\n n_2 float64"
+        union = " val int; str string; n_2 float64 // the semantic values " if inline else " val int\n str string\n n_2 float64"
         pro = "package %s\nimport \"fmt\"" % pkg
         epi = "\nfunc GetToken(input string, valTy *ValType, pos *int) int {\n\treturn -1\n}\n"
     else:
-        union = " val :number;\n str :string;\n n_2 :number;"
+        union = " val :number; str :string; n_2 :number; // the semantic values " if inline else " val :number;\n str :string;\n n_2 :number;"
         pro = "// ts"
         epi = "\nfunction GetToken(input :string, model:{ValType :ValType, pos :number}) :number {\n\treturn -1\n}\nconsole.log(\"LOADED\", typeof Parser === \"function\");\n"   # loading only: running the parser of a cyclic grammar need not terminate
     return gen.render(sp, prologue=pro, epilogue=epi, union=union, actions=acts, tags=tags)
@@ -2128,6 +2159,8 @@ def c12_spec(rng):
                 r["rhs"] = ["start" if x == old_name else x for x in r["rhs"]]
     sp["plant"] = plant
     sp["eof_token"] = rng.random() < 0.3
+    if sp["tokens"] and rng.random() < 0.2:
+        sp["type_on_token"] = rng.choice(sp["tokens"])      # `%type <v> TOKEN`: the yacc way to tag a token
     return sp
 
 
@@ -2177,6 +2210,8 @@ def check_C12(tier):
         src = gen.render(sp)
         if sp.get("extra_type"):
             src = src.replace("%start", "%%type <v> %s\n%%start" % sp["extra_type"], 1)
+        if sp.get("type_on_token"):
+            src = src.replace("%start", "%%type <v> %s\n%%start" % sp["type_on_token"], 1)
         cases.append({"id": "g%d" % i, "src": src})
     rec = run_front(cases)
     ties, violations, samples = [], [], []
@@ -2229,12 +2264,12 @@ def c13_texts(tier, rng):
     for _ in range(6 if tier == "quick" else 40):
         base.append(gen.render_file(gen.file_spec(rng), rng))
     texts = ["%token A \u0663\n%start S\n%%\nS : A ;\n", "\u0663", "%token A 1\u0663", "", "%", "%%", "%token <@", "%token <#val> NUM", "%start* L", "%token A\n%start", "%union", "%union {", "%{", "/*", "'", "\"", "{", "%token A\n%%\nS : A {",
-             "%token A\n%%\nS : A /* x", "%prec", "%type", "%type <", "%left", "%token A 1 2 3 <", "$", "$$", "$end", "%token A\n%%\nS : %prec", "%token A\n%%\nS :", "%token A\n%%\nS"]
+             "%token A\n%%\nS : A /* x", "/*/", "%token A\n%start S\n%%\nS : A ;\n/*/ rest", "%token A\n/*////\n%start S", "%prec", "%type", "%type <", "%left", "%token A 1 2 3 <", "$", "$$", "$end", "%token A\n%%\nS : %prec", "%token A\n%%\nS :", "%token A\n%%\nS"]
     step = 23 if tier == "quick" else 5
     for b in base:
         for k in range(0, len(b), step):
             texts.append(b[:k])
-    junk = list("%{}'\"/*<>|:;$ \n\t") + ["%%", "%{", "%}", "/*", "*/", "//", "%token", "%union", "%start", "%type", "%left", "%prec", "$$", "{", "}",
+    junk = list("%{}'\"/*<>|:;$ \n\t") + ["%%", "%{", "%}", "/*", "*/", "/*/", "//", "%token", "%union", "%start", "%type", "%left", "%prec", "$$", "{", "}",
                                              "\u0663", "\u0967", "\u00e9", "\u03bb", "\u00a0", "\ufeff", "\r", "\x00", "-", "9"]
     n_edit = 400 if tier == "quick" else 20000
     for _ in range(n_edit):
@@ -2382,6 +2417,9 @@ def check_C14(tier):
         srcs.append(("corpus:" + name, src))
     for i in range(12 if tier == "quick" else 80):
         srcs.append(("expr:%d" % i, gen.render(gen.expr_grammar(rng))))
+    # names that share a token number (synonyms for one lexer code; two names for the end marker)
+    srcs.append(("alias:eof", "%token NUM\n%token EOF -1\n%token END -1\n%left '+'\n%start E\n%%\nE : E '+' E | NUM ;\n%%\n"))
+    srcs.append(("alias:num", "%token NUM 299\n%token NE 300\n%token NEQ 300\n%token ID 300\n%start E\n%%\nE : E NE E | E NEQ NUM | ID | NUM ;\n%%\n"))
     N = 6 if tier == "quick" else 20
     optsets = [("go", []), ("go", ["-u"]), ("go", ["-o"]), ("go", ["-o", "-u"]), ("typescript", [])]
     jobs = []
@@ -2502,6 +2540,10 @@ def check_C18(tier):
         return build_failure(pid, tier, msg)
     proof = common.prove(C18_THEOREMS, C18_MODULES)
     cases = sweep.make_cases(tier, rng, n_random=150 if tier == "quick" else 3000, n_tiny=100 if tier == "quick" else 2000, big=5 if tier == "quick" else 60)
+    # very long symbol names (every view must show them in full)
+    long_t, long_n = "END_OF_STATEMENT_SEPARATOR_TOKEN_SEMICOLON", "declaration_list_with_optional_trailing_separator_"
+    cases.append({"id": "long:names", "kind": "hand", "src": "%%token %s ID\n%%start prog\n%%%%\nprog : %sa | %sb ;\n%sa : ID %s ;\n%sb : ID ID %s ;\n%%%%\n" % (
+        long_t, long_n, long_n, long_n, long_t, long_n, long_t)})
     safe = []
     for c in cases:
         # names that contain the renderer's own separators cannot be read back (DESIGN §5 C18)
@@ -2729,6 +2771,25 @@ def check_C19(tier):
     violations, samples = [], []
     hist = {}
     runs = 0
+    # an input that cannot be opened at all (missing file; a path through a regular file): the output stays as it is
+    for target in ("go", "typescript"):
+        for nm, badin in (("missing input file", os.path.join(work, "no_such_file.y")), ("input path through a file", os.path.join(cli, "x.y"))):
+            outp = os.path.join(work, "out_noinput_%s_%d.txt" % (target, len(nm)))
+            before = b"PRE-EXISTING OUTPUT (no input)\n" * 30
+            open(outp, "wb").write(before)
+            try:
+                p0 = subprocess.run([cli, "generate", target, badin, outp], stdout=subprocess.DEVNULL, stderr=subprocess.DEVNULL, timeout=60, cwd=work)
+                rc0 = p0.returncode
+            except subprocess.TimeoutExpired:
+                rc0 = -9
+            after = open(outp, "rb").read() if os.path.exists(outp) else None
+            runs += 1
+            hist[nm + (":fail" if rc0 != 0 else ":ok")] = hist.get(nm + (":fail" if rc0 != 0 else ":ok"), 0) + 1
+            if rc0 != 0 and after != before:
+                violations.append({"key": common.finding_key({"noinput": nm, "target": target}),
+                                   "what": "a failed generation (%s) modified the existing output file" % nm,
+                                   "replay": {"property": pid, "input_path": badin, "target": target, "exit": rc0,
+                                              "file_before_len": len(before), "file_after_len": None if after is None else len(after)}})
     jobs = []
     for ki, (kind, src) in enumerate(failures.items()):
         for target, flags in (("go", []), ("go", ["-o", "-u"]), ("typescript", [])):
